@@ -92,7 +92,7 @@ Qed.
 Ltac pres_now := unfold pres, fall; repeat constructor; prj; try reflexivity.
 
 Ltac pget f H := let X := fresh "P" in
-  pose proof (pres_get f _ _ _ eq_refl H) as X; cbn [fld_eq] in X.
+  match type of H with pres ?fs ?s ?s' => pose proof (pres_get f fs s s' eq_refl H) as X; cbn [fld_eq] in X end.
 
 (* ---------- leaf functions ---------- *)
 Lemma ask_evinfo_pres s s1 r o : ask_evinfo s = (s1, r, o) -> pres fall s s1 /\ no_cb o.
@@ -452,8 +452,9 @@ Lemma handle_non_read_spec cfg s fn seq fid bytes hdrs s1 r o :
   (s_select s1 = s_select s \/ sel_established cfg s fn seq fid bytes hdrs s1 o).
 Proof.
   unfold handle_non_read. cbv zeta.
-  match goal with |- (let '(_, _, _) := ?X in _) = _ -> _ => destruct X as [[sa ra] oa] eqn:EX end.
-  intros H. inversion H; subst sa oa. clear H. revert EX.
+  intros H.
+  match type of H with (match ?X with _ => _ end) = _ => destruct X as [[sa ra] oa] eqn:EX end.
+  inversion H; subst sa oa. clear H. revert EX.
   assert (Hmisc : forall s1' (o' : list oobs) (code : N), fn = code -> code <> fn_operate ->
             pres fctl s s1' -> s_select s1' = s_select s -> Forall misc_obs o' ->
             pres fctl s s1' /\
@@ -523,4 +524,322 @@ Proof.
     apply (Hmisc _ _ fn eq_refl Hnop); [eapply pres_sub; [|exact E2]; reflexivity| |constructor].
     pget FSel E2. exact P. }
   intros H; inversion H; subst s1 ra o. apply Hmisc2. constructor.
+Qed.
+
+(* ---------- broadcast ---------- *)
+Lemma process_broadcast_spec cfg s m fid ctl fn bytes obj s1 o :
+  process_broadcast cfg s m fid ctl fn bytes obj = (s1, o) ->
+  pres fall s s1 /\
+  (forall c, In (OCb c) o -> exists hdrs rh, obj = ObjOk hdrs rh /\ cb_fn c fn /\
+                              fn <> fn_select /\ fn <> fn_operate /\ fn <> fn_direct_operate).
+Proof.
+  unfold process_broadcast.
+  assert (P0 : pres fall s (upd_last_bcast s (Some m))) by pres_now.
+  destruct (negb (o_broadcast cfg)).
+  { intros H; inversion H; subst. split; [exact P0|]. intros c [Hc|[]]; discriminate Hc. }
+  destruct obj as [e|hdrs rh].
+  { intros H; inversion H; subst. split; [exact P0|]. intros c [Hc|[]]; discriminate Hc. }
+  assert (Hdone : forall s1' (o' : list oobs) (code : N), fn = code ->
+            code <> fn_select -> code <> fn_operate -> code <> fn_direct_operate ->
+            pres fall s s1' -> Forall misc_obs o' ->
+            pres fall s s1' /\
+            (forall c, In (OCb c) (o' ++ [OInfo (IBroadcast fn 0 0)]) -> exists hdrs0 rh0, ObjOk hdrs rh = ObjOk hdrs0 rh0 /\ cb_fn c fn /\
+                              fn <> fn_select /\ fn <> fn_operate /\ fn <> fn_direct_operate)).
+  { intros s1' o' code Hfn H3 H4 H5 Hp Hm. split; [exact Hp|]. intros c Hin. exists hdrs, rh.
+    split; [reflexivity|]. split; [|subst fn; auto].
+    apply in_app_or in Hin. destruct Hin as [Hin|[Hin|[]]]; [|discriminate Hin].
+    apply misc_cb_fn. rewrite Forall_forall in Hm. apply (Hm _ Hin). }
+  destruct (fn =? fn_write) eqn:E.
+  { apply N.eqb_eq in E. destruct (handle_write_headers cfg (upd_last_bcast s (Some m)) hdrs) as [[s2 v] o2] eqn:E2.
+    apply handle_write_headers_spec in E2. destruct E2 as [A B]. intros H; inversion H; subst s1 o.
+    apply (Hdone _ _ _ E); try discriminate; [exact (pres_trans _ _ _ _ P0 A)|exact B]. }
+  clear E. destruct (fn =? fn_direct_operate_nr) eqn:E.
+  { apply N.eqb_eq in E.
+    destruct (handle_controls cfg (upd_last_bcast s (Some m)) fn (ctl_seq ctl) fid bytes hdrs) as [[s2 r2] o2] eqn:E2.
+    intros H; inversion H; subst s1 o. clear H.
+    pose proof E2 as E3. apply handle_controls_spec in E3; [|tauto]. destruct E3 as [_ [Hcb _]].
+    assert (s2 = upd_last_bcast s (Some m)).
+    { revert E2. unfold handle_controls. destruct (negb (all_controls hdrs)); [intros H; inversion H; reflexivity|].
+      rewrite E. rewrite N.eqb_refl.
+      destruct (noack_headers (upd_last_bcast s (Some m)) cfg 0 false hdrs). intros H; inversion H; reflexivity. }
+    subst s2. split; [exact P0|]. intros c Hin. exists hdrs, rh. split; [reflexivity|].
+    apply in_app_or in Hin. destruct Hin as [Hin|[Hin|[]]]; [|discriminate Hin].
+    apply Hcb in Hin. destruct Hin as [Hin _]. split; [exact Hin|]. rewrite E. repeat split; discriminate. }
+  clear E. destruct (fn =? fn_immediate_freeze_nr) eqn:E.
+  { apply N.eqb_eq in E. destruct (handle_freeze cfg 0 hdrs) as [v o2] eqn:E2. intros H; inversion H; subst s1 o.
+    apply (Hdone _ _ _ E); try discriminate; [exact P0|eapply handle_freeze_spec; eauto]. }
+  clear E. destruct (fn =? fn_freeze_clear_nr) eqn:E.
+  { apply N.eqb_eq in E. destruct (handle_freeze cfg 1 hdrs) as [v o2] eqn:E2. intros H; inversion H; subst s1 o.
+    apply (Hdone _ _ _ E); try discriminate; [exact P0|eapply handle_freeze_spec; eauto]. }
+  clear E. destruct (fn =? fn_freeze_at_time_nr) eqn:E.
+  { apply N.eqb_eq in E. destruct (handle_freeze_at_time cfg None hdrs) as [v o2] eqn:E2. intros H; inversion H; subst s1 o.
+    apply (Hdone _ _ _ E); try discriminate; [exact P0|eapply handle_freeze_at_time_spec; eauto]. }
+  clear E. destruct (fn =? fn_record_time) eqn:E.
+  { apply N.eqb_eq in E. intros H; inversion H; subst s1 o.
+    apply (Hdone _ [] _ E); try discriminate; [pres_now|constructor]. }
+  clear E. destruct (fn =? fn_disable_unsol) eqn:E.
+  { apply N.eqb_eq in E. destruct (enable_disable cfg (upd_last_bcast s (Some m)) false (ctl_seq ctl) hdrs) as [s2 r2] eqn:E2.
+    apply enable_disable_pres in E2. intros H; inversion H; subst s1 o.
+    apply (Hdone _ [] _ E); try discriminate; [exact (pres_trans _ _ _ _ P0 E2)|constructor]. }
+  clear E. destruct (fn =? fn_enable_unsol) eqn:E.
+  { apply N.eqb_eq in E. destruct (enable_disable cfg (upd_last_bcast s (Some m)) true (ctl_seq ctl) hdrs) as [s2 r2] eqn:E2.
+    apply enable_disable_pres in E2. intros H; inversion H; subst s1 o.
+    apply (Hdone _ [] _ E); try discriminate; [exact (pres_trans _ _ _ _ P0 E2)|constructor]. }
+  intros H; inversion H; subst. split; [exact P0|]. intros c [Hc|[]]; discriminate Hc.
+Qed.
+
+(* ---------- handle_one_request_from_idle ---------- *)
+Lemma bytes_eqb_eq a : forall b, bytes_eqb a b = true <-> a = b.
+Proof.
+  induction a as [|x a IH]; intros [|y b]; cbn [bytes_eqb]; split; intros H; try reflexivity; try discriminate.
+  - apply andb_true_iff in H. destruct H as [H1 H2]. apply N.eqb_eq in H1. apply IH in H2. congruence.
+  - inversion H; subst. rewrite N.eqb_refl. cbn. apply IH. reflexivity.
+Qed.
+
+Definition last_matches (last : option last_request) (seq : N) (bytes : list N) : Prop :=
+  exists l, last = Some l /\ lr_seq l = seq /\ lr_bytes l = bytes.
+
+Definition repeat_flag (last : option last_request) (seq : N) (bytes : list N) : bool :=
+  match last with
+  | Some l => (lr_seq l =? seq) && bytes_eqb (lr_bytes l) bytes
+  | None => false
+  end.
+
+Lemma repeat_flag_iff last seq bytes : repeat_flag last seq bytes = true <-> last_matches last seq bytes.
+Proof.
+  unfold repeat_flag, last_matches. destruct last as [l|].
+  - rewrite andb_true_iff, N.eqb_eq, bytes_eqb_eq. split.
+    + intros [A B]. exists l. auto.
+    + intros [l' [E [A B]]]. inversion E; subst. auto.
+  - split; [discriminate|]. intros [l [E _]]. discriminate E.
+Qed.
+
+Definition finish_idle (cfg : ocfg) (from seq : N) (bytes : list N) (o0 : list oobs)
+           (s1 : ostate) (resp : option response) (se : option series) (repeat : bool) (o1 : list oobs)
+  : ostate * list oobs :=
+  match resp with
+  | Some r =>
+      if repeat then
+        let o2 := repeat_solicited s1 from r in
+        let se' := match se with None => if ctl_con (r_ctl r) then Some {| se_ecsn := ctl_seq (r_ctl r); se_fin := true |} else None | x => x end in
+        let s2 := upd_last s1 (mk_last seq bytes (Some r) se') in
+        match se' with
+        | Some x => (upd_control s2 (CSolWait x (confirm_deadline cfg s2) RStep2), o0 ++ o1 ++ o2 ++ [OInfo (IEnterSolWait (se_ecsn x))])
+        | None => (s2, o0 ++ o1 ++ o2)
+        end
+      else
+        let '(s2, r', o2) := write_solicited s1 from r in
+        let se' := match se with None => if ctl_con (r_ctl r') then Some {| se_ecsn := ctl_seq (r_ctl r'); se_fin := true |} else None | x => x end in
+        let s3 := upd_last s2 (mk_last seq bytes (Some r') se') in
+        match se' with
+        | Some x => (upd_control s3 (CSolWait x (confirm_deadline cfg s3) RStep2), o0 ++ o1 ++ o2 ++ [OInfo (IEnterSolWait (se_ecsn x))])
+        | None => (s3, o0 ++ o1 ++ o2)
+        end
+  | None => (upd_last s1 (mk_last seq bytes None se), o0 ++ o1)
+  end.
+
+Definition rebase_if_fresh (s : ostate) (fid : N) : ostate :=
+  match s_select s with
+  | Some sel =>
+      if (ss_frame_id sel + 1) mod 4294967296 =? fid
+      then upd_select s (Some {| ss_seq := ss_seq sel; ss_frame_id := fid;
+                                 ss_time := ss_time sel; ss_objects := ss_objects sel |})
+      else s
+  | None => s
+  end.
+
+Lemma handle_from_idle_eq cfg s from bc bytes d fid :
+  handle_from_idle cfg s from bc bytes d fid =
+  match to_treq cfg from d with
+  | TqNone => (s, [])
+  | TqError seq => write_error_response s from bc seq
+  | TqRequest ctl fn obj =>
+      let seq := ctl_seq ctl in
+      let o0 := [OInfo (IIdleRequest fn seq)] in
+      match classify s bc bytes ctl fn obj with
+      | FtMalformed iin2 => finish_idle cfg from seq bytes o0 s (Some (empty_solicited seq iin2)) None false []
+      | FtNewRead _ _ | FtRepeatRead _ _ _ =>
+          let '(s1, r, se, o1) := format_first_read_response s seq in
+          finish_idle cfg from seq bytes o0 s1 (Some r) se false o1
+      | FtNewNonRead hdrs =>
+          let '(s1, r, o1) := handle_non_read cfg s fn seq fid bytes hdrs in
+          finish_idle cfg from seq bytes o0 s1 r None false o1
+      | FtRepeatNonRead last => finish_idle cfg from seq bytes o0 (rebase_if_fresh s fid) last None true []
+      | FtBroadcast m =>
+          let '(s1, o1) := process_broadcast cfg s m fid ctl fn bytes obj in (s1, o0 ++ o1)
+      | FtSolConfirm _ | FtUnsolConfirm _ => (s, o0)
+      end
+  end.
+Proof. reflexivity. Qed.
+
+Definition ffin : list fld := [FNow; FFid; FSelSt; FOpSt; FPend; FNotify; FDef; FSel; FBuf].
+
+Definition idle_or_solwait (c0 c : control) : Prop :=
+  c = c0 \/ exists x dl, c = CSolWait x dl RStep2.
+
+Lemma finish_idle_spec cfg from seq bytes o0 s1 resp se repeat o1 s2 o2 :
+  finish_idle cfg from seq bytes o0 s1 resp se repeat o1 = (s2, o2) ->
+  pres ffin s1 s2 /\ last_matches (s_last s2) seq bytes /\ idle_or_solwait (s_control s1) (s_control s2) /\
+  exists rest, o2 = o0 ++ o1 ++ rest /\ no_cb rest /\
+    (forall r0, resp = Some r0 -> repeat = false ->
+       exists r', r_size r' = r_size r0 /\ In (OTx from (response_bytes r' (s_sol_buf s1))) rest).
+Proof.
+  unfold finish_idle. destruct resp as [r|].
+  2:{ intros H; inversion H; subst. split; [pres_now|]. split; [eexists; split; [reflexivity|split; reflexivity]|].
+      split; [left; reflexivity|]. exists []. rewrite app_nil_r. split; [reflexivity|]. split; [reflexivity|].
+      intros r0 Hr; discriminate Hr. }
+  destruct repeat.
+  - destruct se as [x|]; [|destruct (ctl_con (r_ctl r))]; cbv zeta; intros H; inversion H; subst; clear H;
+      (split; [pres_now|]; split; [eexists; split; [reflexivity|split; reflexivity]|];
+       split; [first [left; reflexivity | right; eexists; eexists; reflexivity]|];
+       eexists; split; [reflexivity|]; split; [reflexivity|]; intros r0 _ Hf; discriminate Hf).
+  - destruct (write_solicited s1 from r) as [[sa r'] oa] eqn:Ew.
+    apply write_solicited_pres in Ew. destruct Ew as [A [B [C [pre D]]]].
+    assert (Hbuf : s_sol_buf sa = s_sol_buf s1) by (pget FBuf A; exact P).
+    assert (Hctl : s_control sa = s_control s1) by (pget FCtl A; exact P).
+    assert (Htx : In (OTx from (response_bytes r' (s_sol_buf s1))) oa).
+    { rewrite D. apply in_or_app. right. left. rewrite Hbuf. reflexivity. }
+    destruct se as [x|]; [|destruct (ctl_con (r_ctl r'))]; cbv zeta; intros H; inversion H; subst s2 o2; clear H;
+      (split; [apply (pres_trans2 fall ffin ffin _ sa _ eq_refl eq_refl A); pres_now|];
+       split; [eexists; split; [reflexivity|split; reflexivity]|];
+       split; [first [left; exact Hctl | right; eexists; eexists; reflexivity]|]).
+    + exists (oa ++ [OInfo (IEnterSolWait (se_ecsn x))]). split; [reflexivity|].
+      split; [apply no_cb_app; split; [exact B|reflexivity]|].
+      intros r0 Hr _. inversion Hr; subst r0. exists r'. split; [exact C|]. apply in_or_app. left. exact Htx.
+    + eexists. split; [reflexivity|].
+      split; [apply no_cb_app; split; [exact B|reflexivity]|].
+      intros r0 Hr _. inversion Hr; subst r0. exists r'. split; [exact C|]. apply in_or_app. left. exact Htx.
+    + exists oa. split; [reflexivity|]. split; [exact B|].
+      intros r0 Hr _. inversion Hr; subst r0. exists r'. split; [exact C|]. exact Htx.
+Qed.
+
+Definition sel_rebase (sel : select_state) (fid : N) : select_state :=
+  {| ss_seq := ss_seq sel; ss_frame_id := fid; ss_time := ss_time sel; ss_objects := ss_objects sel |}.
+
+Record frag_spec (cfg : ocfg) (sm : ostate) (from : N) (bc : option bcast_mode) (bytes : list N) (d : digest)
+       (fid : N) (s2 : ostate) (o2 : list oobs) : Prop := {
+  fs_cb : forall c, In (OCb c) o2 ->
+          exists ctl fn hdrs rh, to_treq cfg from d = TqRequest ctl fn (ObjOk hdrs rh) /\ cb_fn c fn /\
+            (bc <> None -> fn <> fn_select /\ fn <> fn_operate /\ fn <> fn_direct_operate) /\
+            (fn = fn_operate -> op_matched cfg sm (ctl_seq ctl) fid bytes);
+  fs_sel : s_select s2 = s_select sm \/
+           (exists ctl hdrs rh, bc = None /\ to_treq cfg from d = TqRequest ctl fn_select (ObjOk hdrs rh) /\
+              sel_established cfg sm fn_select (ctl_seq ctl) fid bytes hdrs s2 o2) \/
+           (exists sel ctl fn hdrs rh, bc = None /\ to_treq cfg from d = TqRequest ctl fn (ObjOk hdrs rh) /\
+              fn <> fn_confirm /\ fn <> fn_read /\ last_matches (s_last sm) (ctl_seq ctl) bytes /\
+              s_select sm = Some sel /\ (ss_frame_id sel + 1) mod 4294967296 = fid /\
+              s_select s2 = Some (sel_rebase sel fid));
+  fs_rec : bc = None -> forall ctl fn hdrs rh, to_treq cfg from d = TqRequest ctl fn (ObjOk hdrs rh) ->
+           fn <> fn_confirm -> fn <> fn_read -> last_matches (s_last s2) (ctl_seq ctl) bytes;
+  fs_rep : bc = None -> forall ctl fn obj, to_treq cfg from d = TqRequest ctl fn obj ->
+           last_matches (s_last sm) (ctl_seq ctl) bytes -> no_cb o2
+}.
+
+Lemma in_ocb_split c (o0 o1 rest : list oobs) :
+  no_cb o0 -> no_cb rest -> In (OCb c) (o0 ++ o1 ++ rest) -> In (OCb c) o1.
+Proof.
+  intros H0 Hr Hin. apply in_app_or in Hin. destruct Hin as [Hin|Hin]; [exfalso; exact (no_cb_In _ H0 _ Hin)|].
+  apply in_app_or in Hin. destruct Hin as [Hin|Hin]; [exact Hin|exfalso; exact (no_cb_In _ Hr _ Hin)].
+Qed.
+
+Definition fidle : list fld := [FNow; FFid; FSelSt; FOpSt; FPend; FNotify; FDef].
+
+Lemma handle_from_idle_spec cfg s from bc bytes d fid s2 o2 :
+  handle_from_idle cfg s from bc bytes d fid = (s2, o2) ->
+  pres fidle s s2 /\ idle_or_solwait (s_control s) (s_control s2) /\
+  frag_spec cfg s from bc bytes d fid s2 o2.
+Proof.
+  rewrite handle_from_idle_eq. destruct (to_treq cfg from d) as [|eseq|ctl fn obj] eqn:Et.
+  - intros H; inversion H; subst. split; [apply pres_refl|]. split; [left; reflexivity|].
+    constructor; try (intros; discriminate); [intros c []|left; reflexivity|intros; reflexivity].
+  - intros H. apply write_error_response_pres in H. destruct H as [A B].
+    split; [eapply pres_sub; [|exact A]; reflexivity|]. split; [left; pget FCtl A; exact P|].
+    constructor; try (intros; discriminate).
+    + intros c Hin. exfalso. exact (no_cb_In _ B _ Hin).
+    + left. pget FSel A. exact P.
+  - cbv zeta. destruct bc as [m|].
+    { cbn [classify]. destruct (process_broadcast cfg s m fid ctl fn bytes obj) as [s1 o1] eqn:Ep.
+      apply process_broadcast_spec in Ep. destruct Ep as [A B]. intros H; inversion H; subst s2 o2. clear H.
+      split; [eapply pres_sub; [|exact A]; reflexivity|]. split; [left; pget FCtl A; exact P|].
+      constructor; try (intros; discriminate).
+      - intros c [Hin|Hin]; [discriminate Hin|]. apply B in Hin. destruct Hin as [hdrs [rh [Ho [Hf Hn]]]].
+        subst obj. exists ctl, fn, hdrs, rh. split; [reflexivity|]. split; [exact Hf|]. split; [intros _; exact Hn|].
+        intros Hc. exfalso. tauto.
+      - left. pget FSel A. exact P. }
+    unfold classify. destruct (fn =? fn_confirm) eqn:E0.
+    { apply N.eqb_eq in E0.
+      assert (Hgen : (s, [OInfo (IIdleRequest fn (ctl_seq ctl))]) = (s2, o2) ->
+                pres fidle s s2 /\ idle_or_solwait (s_control s) (s_control s2) /\ frag_spec cfg s from None bytes d fid s2 o2).
+      { intros H; inversion H; subst s2 o2. split; [apply pres_refl|]. split; [left; reflexivity|].
+        constructor.
+        - intros c [Hin|[]]; discriminate Hin.
+        - left; reflexivity.
+        - intros _ ctl' fn' hdrs rh Ht Hn _. inversion Ht; subst. congruence.
+        - intros; reflexivity. }
+      destruct (ctl_uns ctl); exact Hgen. }
+    apply N.eqb_neq in E0.
+    destruct obj as [iin2|hdrs rh].
+    { intros H. apply finish_idle_spec in H. destruct H as [A [B [C [rest [D [E F]]]]]].
+      split; [eapply pres_sub; [|exact A]; reflexivity|]. split; [exact C|].
+      constructor.
+      - intros c Hin. rewrite D in Hin. apply in_ocb_split in Hin; [destruct Hin|reflexivity|exact E].
+      - left. pget FSel A. exact P.
+      - intros _ ctl' fn' hdrs rh Ht. inversion Ht.
+      - intros _ ctl' fn' obj' _ _. rewrite D. apply no_cb_app. split; [reflexivity|exact E]. }
+    change (match s_last s with Some l => (lr_seq l =? ctl_seq ctl) && bytes_eqb (lr_bytes l) bytes | None => false end)
+      with (repeat_flag (s_last s) (ctl_seq ctl) bytes).
+    assert (Hread : (let '(s1, r, se, o1) := format_first_read_response s (ctl_seq ctl) in
+                     finish_idle cfg from (ctl_seq ctl) bytes [OInfo (IIdleRequest fn (ctl_seq ctl))] s1 (Some r) se false o1) = (s2, o2) ->
+                    fn = fn_read ->
+                    pres fidle s s2 /\ idle_or_solwait (s_control s) (s_control s2) /\ frag_spec cfg s from None bytes d fid s2 o2).
+    { destruct (format_first_read_response s (ctl_seq ctl)) as [[[s1 r] se] o1] eqn:Ef.
+      apply format_first_read_response_pres in Ef. destruct Ef as [A0 B0].
+      intros H Hfn. apply finish_idle_spec in H. destruct H as [A [B [C [rest [D [E F]]]]]].
+      split; [exact (pres_trans2 fnobuf ffin fidle _ _ _ eq_refl eq_refl A0 A)|].
+      split; [pget FCtl A0; rewrite <- P; exact C|].
+      assert (Hno : no_cb o2).
+      { rewrite D. apply no_cb_app. split; [reflexivity|]. apply no_cb_app. auto. }
+      constructor.
+      - intros c Hin. exfalso. exact (no_cb_In _ Hno _ Hin).
+      - left. pget FSel A. pget FSel A0. congruence.
+      - intros _ ctl' fn' hdrs' rh' Ht _ Hn. inversion Ht; subst. congruence.
+      - intros; exact Hno. }
+    destruct (repeat_flag (s_last s) (ctl_seq ctl) bytes) eqn:Er.
+    + destruct (fn =? fn_read) eqn:E1; [apply N.eqb_eq in E1; intros H; apply Hread; assumption|].
+      apply N.eqb_neq in E1. clear Hread. apply repeat_flag_iff in Er.
+      intros H. apply finish_idle_spec in H. destruct H as [A [B [C [rest [D [E F]]]]]].
+      assert (P1 : pres fidle s (rebase_if_fresh s fid)).
+      { unfold rebase_if_fresh. destruct (s_select s); [|apply pres_refl].
+        destruct (_ =? fid); [pres_now|apply pres_refl]. }
+      assert (P2 : s_control (rebase_if_fresh s fid) = s_control s).
+      { unfold rebase_if_fresh. destruct (s_select s); [|reflexivity]. destruct (_ =? fid); reflexivity. }
+      split; [exact (pres_trans2 fidle ffin fidle _ _ _ eq_refl eq_refl P1 A)|].
+      split; [rewrite <- P2; exact C|].
+      assert (Hno : no_cb o2).
+      { rewrite D. apply no_cb_app. split; [reflexivity|]. exact E. }
+      constructor.
+      * intros c Hin. exfalso. exact (no_cb_In _ Hno _ Hin).
+      * pget FSel A. rewrite P. unfold rebase_if_fresh. destruct (s_select s) as [sel|] eqn:Es; [|left; exact Es].
+        destruct ((ss_frame_id sel + 1) mod 4294967296 =? fid) eqn:Ef; [|left; exact Es].
+        right. right. apply N.eqb_eq in Ef. exists sel, ctl, fn, hdrs, rh. repeat split; auto.
+      * intros _ ctl' fn' hdrs' rh' Ht _ _. inversion Ht; subst. exact B.
+      * intros; exact Hno.
+    + destruct (fn =? fn_read) eqn:E1; [apply N.eqb_eq in E1; intros H; apply Hread; assumption|].
+      apply N.eqb_neq in E1. clear Hread.
+      destruct (handle_non_read cfg s fn (ctl_seq ctl) fid bytes hdrs) as [[s1 r] o1] eqn:Eh.
+      apply handle_non_read_spec in Eh. destruct Eh as [A0 [B0 C0]].
+      intros H. apply finish_idle_spec in H. destruct H as [A [B [C [rest [D [E F]]]]]].
+      split; [exact (pres_trans2 fctl ffin fidle _ _ _ eq_refl eq_refl A0 A)|].
+      split; [pget FCtl A0; rewrite <- P; exact C|].
+      constructor.
+      * intros c Hin. rewrite D in Hin. apply in_ocb_split in Hin; [|reflexivity|exact E].
+        apply B0 in Hin. destruct Hin as [H1 H2]. exists ctl, fn, hdrs, rh. split; [reflexivity|].
+        split; [exact H1|]. split; [intros Hc; congruence|exact H2].
+      * pget FSel A. destruct C0 as [C0|C0]; [left; congruence|].
+        right. left. destruct C0 as [echo [cbs [started [Hfn [Hall [Hctl [Hsel Hincl]]]]]]].
+        subst fn. exists ctl, hdrs, rh. split; [reflexivity|]. split; [reflexivity|].
+        exists echo, cbs, started. repeat split; auto; [congruence|].
+        intros x Hx. rewrite D. apply in_or_app. right. apply in_or_app. left. auto.
+      * intros _ ctl' fn' hdrs' rh' Ht _ _. inversion Ht; subst. exact B.
+      * intros _ ctl' fn' obj' Ht Hl. inversion Ht; subst. apply repeat_flag_iff in Hl. congruence.
 Qed.
